@@ -28,7 +28,7 @@ ASSUMPTIONS = [
     "1e-12 of a symbolisation bin edge, Fourier f*n_freq at an exact half or a Gaussian sigma of 0",
     "custom moment calculators and coordinate filters are user inputs and are shared between implementation and reference",
 ]
-REQUIRED_COUNTERS = {
+REQUIRED_COUNTERS = {"default_constructed": 40, "sim_and_real_lengths_differ": 40, "negative_weight": 15, 
     "minkowski": 50, "msm": 50, "fourier": 50, "gsl": 50, "likelihood": 50, "moments18": 50,
     "integer_typed_data": 40, "with_filters": 40, "with_weights": 40, "ensemble_ge2": 40, "second_call_same_object": 150,
 }
@@ -41,12 +41,12 @@ def gen_cases(tier, seed):
     return [{"kind": k, "i": i, "seed": seed} for i in range(n) for k in KINDS]
 
 
-def close(got, ref, rel, extra=0.0):
+def close(got, ref, rel, extra=0.0, floor=1.0):
     if got != got and ref != ref:
         return True
     if math.isinf(ref) or (isinstance(got, float) and math.isinf(got)):
         return got == ref
-    return abs(got - ref) <= rel * max(1.0, abs(ref), extra)
+    return abs(got - ref) <= rel * max(floor, abs(ref), extra)
 
 
 def classify_gsl(d, sim, real, got):
@@ -119,9 +119,30 @@ def run_case(desc, ctx):
         d = G.gen_loss_desc(rng, kind, D, N)
         int_data = rng.random() < 0.15
         real, sim, kinds = G.gen_data(rng, N, D, E, d["filters"], int_data=int_data)
+        if kind in ("msm", "gsl", "likelihood") and rng.random() < 0.3 and N >= lo_n + 4:
+            # these three accept simulated series of another length than the real one: T (real) and S (simulated) then play different roles
+            cut = int(rng.integers(2, min(N - lo_n, 30) + 1))
+            cut_real = bool(rng.random() < 0.5)
+            if kind == "gsl":
+                # words of the chosen (or default, from the real length) size must exist in both series
+                T = N - cut if cut_real else N
+                L = d["nb_word_lengths"] if d.get("nb_word_lengths") is not None else int((T - 1) / 2.0)
+                cut = min(cut, max(0, N - L - 1))
+                if cut_real and d.get("nb_word_lengths") is None:
+                    pass  # the default word length shrinks with the real series
+            if cut > 0:
+                if cut_real:
+                    real = np.ascontiguousarray(real[: N - cut])
+                else:
+                    sim = np.ascontiguousarray(sim[:, : N - cut])
+                c["sim_and_real_lengths_differ"] = c.get("sim_and_real_lengths_differ", 0) + 1
         if int_data:
             c["integer_typed_data"] = c.get("integer_typed_data", 0) + 1
-        wit = {"loss": d, "N": N, "D": D, "E": E, "shapes": kinds, "real": real, "sim": sim, "dtype": str(sim.dtype)}
+        if d.get("defaults"):
+            c["default_constructed"] = c.get("default_constructed", 0) + 1
+        if d.get("weights") is not None and min(d["weights"]) < 0:
+            c["negative_weight"] = c.get("negative_weight", 0) + 1
+        wit = {"loss": d, "N": real.shape[0], "S": sim.shape[1], "D": D, "E": E, "shapes": kinds, "real": real, "sim": sim, "dtype": str(sim.dtype)}
         flags = {}
         try:
             ref, per = G.reference_value(d, sim, real, flags)
@@ -152,7 +173,7 @@ def run_case(desc, ctx):
         if nondefault and (E >= 2 or d["filters"] is not None):
             out["nontrivial"].append(f"{kind}:{hash((repr(d), sim.tobytes())) & 0xFFFFFFFFFFFF:x}")
         rel = 1e-12 if kind == "gsl" else 1e-9
-        if not close(got, ref, rel, flags.get("abs_scale", 0.0) if kind != "gsl" else 0.0):
+        if not close(got, ref, rel, flags.get("abs_scale", 0.0) if kind != "gsl" else 0.0, flags.get("floor", 1.0)):
             v = {"msg": f"{kind}: compute_loss = {got!r}, definition gives {ref!r} (options {d})", "witness": wit}
             if kind == "gsl":
                 mech = classify_gsl(d, sim, real, got)
@@ -175,7 +196,7 @@ def run_case(desc, ctx):
                 with quiet():
                     got2 = float(loss.compute_loss(sim2.copy(), real2.copy()))
                 c["second_call_same_object"] = c.get("second_call_same_object", 0) + 1
-                if not close(got2, ref2, rel, flags2.get("abs_scale", 0.0) if kind != "gsl" else 0.0):
+                if not close(got2, ref2, rel, flags2.get("abs_scale", 0.0) if kind != "gsl" else 0.0, flags2.get("floor", 1.0)):
                     v = {"msg": f"{kind}: second evaluation on the same object (N {N}->{N2}, E {E}->{E2}): compute_loss = {got2!r}, definition gives {ref2!r} (options {d})",
                          "witness": {"loss": d, "first": {"N": N, "E": E}, "second": {"N": N2, "E": E2, "real": real2, "sim": sim2}}}
                     if kind == "gsl":
